@@ -203,13 +203,16 @@ func (d *Decoder) readClassDef() (interface{}, error) {
 		return nil, newCodecError("ReadClassDef", err)
 	}
 
-	fields := make([]string, count)
+	if count < 0 {
+		return nil, newCodecError("ReadClassDef", "negative field count %d", count)
+	}
+	fields := make([]string, 0, preallocLen(int(count)))
 	for i := 0; i < int(count); i++ {
 		s, err := d.readString(_tagRead)
 		if err != nil {
 			return nil, newCodecError("ReadClassDef", err)
 		}
-		fields[i] = s
+		fields = append(fields, s)
 	}
 	cls := ClassDef{clsName, fields}
 	return cls, nil
